@@ -341,6 +341,113 @@ def _m_compare_digest(a, b):
     return _hmac.compare_digest(a, b)
 
 
+# ------------------------------------------------------------------ datetime / enum
+import datetime as _dt
+import enum as _enum
+
+
+class SymDatetime(_dt.datetime):
+    """Aware datetime whose POSIX timestamp is symbolic (whole seconds in 0..2^32)."""
+
+    def __new__(cls, ts, tz):
+        self = _dt.datetime.__new__(cls, 2009, 1, 3, tzinfo=tz)
+        self._ts = ts
+        return self
+
+    def timestamp(self):
+        return self._ts
+
+    def _o(self, o):
+        return o._ts if isinstance(o, SymDatetime) else (int(o.timestamp()) if o.timestamp() == int(o.timestamp()) else o.timestamp())
+
+    def __eq__(self, o):
+        if not isinstance(o, _dt.datetime):
+            return False
+        return self._ts == self._o(o)
+
+    def __ne__(self, o): return snot(self.__eq__(o))
+    def __lt__(self, o): return self._ts < self._o(o)
+    def __le__(self, o): return self._ts <= self._o(o)
+    def __gt__(self, o): return self._ts > self._o(o)
+    def __ge__(self, o): return self._ts >= self._o(o)
+    def __hash__(self): return hash(concretize(self._ts))
+    def isoformat(self, *a, **k): raise SxUnsupported("isoformat of a symbolic datetime")
+    def __str__(self): return "<symdatetime>"
+    __repr__ = __str__
+    def __format__(self, spec): return "<symdatetime>"
+
+
+def _m_fromtimestamp(ts, tz=None):
+    if isinstance(ts, (SymInt, SymBool)):
+        if tz is not _dt.timezone.utc:
+            raise SxUnsupported("datetime.fromtimestamp(sym) with a non-UTC zone")
+        if bool(sor(ts < 0, ts > 0xFFFFFFFF)):
+            raise SxUnsupported("datetime.fromtimestamp(sym) outside 0..2^32-1")
+        return SymDatetime(ts, tz)
+    return _dt.datetime.fromtimestamp(ts, tz)
+
+
+import ipaddress as _ip
+
+
+class SymIPv6Address(_ip.IPv6Address):
+    """IPv6Address over 16 symbolic octets: only .packed, equality and formatting are modelled."""
+
+    __slots__ = ("_sym",)
+
+    def __new__(cls, octets):
+        return object.__new__(cls)
+
+    def __init__(self, octets):
+        object.__setattr__(self, "_sym", octets)
+        object.__setattr__(self, "_ip", 0)
+        object.__setattr__(self, "_scope_id", None)
+
+    @property
+    def packed(self):
+        return self._sym
+
+    def __eq__(self, o):
+        if isinstance(o, SymIPv6Address):
+            return self._sym == o._sym
+        if isinstance(o, _ip.IPv6Address):
+            return self._sym == o.packed
+        return False
+
+    def __ne__(self, o): return snot(self.__eq__(o))
+    def __hash__(self): return hash(self._sym)
+    def __str__(self): return "<symip>"
+    __repr__ = __str__
+    def __format__(self, spec): return "<symip>"
+    def __int__(self): return seq.int_from_bytes(self._sym, "big")
+
+    @property
+    def ipv4_mapped(self):
+        raise SxUnsupported("ipv4_mapped of a symbolic address")
+
+
+def _m_ipv6(addr):
+    if isinstance(addr, SymBytes):
+        if len(addr) != 16:
+            raise _ip.AddressValueError("<sym> (len != 16)")
+        return SymIPv6Address(mk_bytes(addr.items))
+    return _ip.IPv6Address(addr)
+
+
+def _enum_call(cls, v):
+    """EnumClass(sym): one fork per member, ValueError if none (IntFlag: unsupported)."""
+    if issubclass(cls, _enum.IntFlag):
+        if bool(v < 0):
+            raise SxUnsupported(f"{cls.__name__}(negative symbolic)")
+        return v    # an IntFlag is the int it was built from (unnamed bits are kept); cross-validated per path
+    if issubclass(cls, _enum.Flag):
+        raise SxUnsupported(f"{cls.__name__}(symbolic) on a Flag enum")
+    for m in cls:
+        if type(m.value) in (int, bool) and bool(v == m.value):
+            return m
+    raise ValueError(f"<sym> is not a valid {cls.__qualname__}")
+
+
 # ------------------------------------------------------------------ hashes as UFs
 HASH_INJECTIVE = False     # harness switch: assume collision resistance
 _HASH_UFS: dict = {}
@@ -504,7 +611,8 @@ MODELS = {
     ord: _m_ord, chr: _m_chr, str: _m_str, bytes.fromhex: _m_bytes_fromhex,
     _hmac.compare_digest: _m_compare_digest, secrets.compare_digest: _m_compare_digest,
     hashlib.new: _m_hashlib_new, _hmac.new: _m_hmac_new, _hmac.digest: _m_hmac_digest,
-    hashlib.pbkdf2_hmac: _m_pbkdf2,
+    hashlib.pbkdf2_hmac: _m_pbkdf2, _dt.datetime.fromtimestamp: _m_fromtimestamp,
+    _ip.IPv6Address: _m_ipv6,
 }
 for _n in ("sha256", "sha1", "sha512", "sha384", "sha224", "md5", "sha3_256", "sha3_512"):
     MODELS[getattr(hashlib, _n)] = _hash_ctor(_n)
@@ -513,6 +621,7 @@ for _n in ("sha256", "sha1", "sha512", "sha384", "sha224", "md5", "sha3_256", "s
 ALWAYS = {io.BytesIO: _m_BytesIO, secrets.randbelow: _m_randbelow, secrets.token_bytes: _m_token_bytes,
           secrets.randbits: _m_randbits, os.urandom: _m_token_bytes}
 
+_BUILTIN_METHOD = type(b"".join)
 STUBS: dict = {}  # harness-installed: callable -> replacement (hash / EC / randomness stubs)
 
 _OK_BUILTINS = (isinstance, len, repr, print, id, type, iter, next, enumerate, zip, hash, getattr, setattr,
@@ -522,6 +631,8 @@ _OK_BUILTINS = (isinstance, len, repr, print, id, type, iter, next, enumerate, z
 def _builtin_method(f, slf, name, args, kwargs):
     """Bound C-level method on a concrete receiver, called with a symbolic argument."""
     ts = type(slf)
+    if isinstance(slf, BaseException) or ts.__module__ not in ("builtins", "io", "collections", "_io", "_collections"):
+        return f(*args, **kwargs)   # inherited slot of a user-defined object: it only stores / forwards
     if ts is dict:
         if name == "get":
             return dict_get(slf, args[0], args[1] if len(args) > 1 else None)
@@ -574,12 +685,16 @@ def call(f, *args, **kwargs):
         m = MODELS.get(f)
     except TypeError:
         m = None
+    if args and type(f) is _BUILTIN_METHOD and f.__name__ == "join" and type(f.__self__) in (bytes, str, bytearray):
+        args = (list(args[0]),) + args[1:]    # materialize generators so that symbolic parts are seen
     sym = any_sym(args, kwargs.values()) if (args or kwargs) else False
     if m is not None:
         if sym:
             return m(*args, **kwargs)
         return f(*args, **kwargs)
     if sym:
+        if isinstance(f, type) and issubclass(f, _enum.Enum) and len(args) == 1 and type(args[0]) in (SymInt, SymBool):
+            return _enum_call(f, args[0])
         tf = type(f).__name__
         if tf in ("builtin_function_or_method", "method-wrapper", "method_descriptor"):
             slf = getattr(f, "__self__", None)
